@@ -5,6 +5,7 @@ import (
 	"go/token"
 	"go/types"
 	"regexp"
+	"strconv"
 	"strings"
 
 	"golang.org/x/tools/go/ssa"
@@ -115,7 +116,11 @@ func (u *Unit) call(s *State, c *ssa.CallCommon, instr *ssa.Call, k func(*State)
 		site = instr
 	}
 	callee := c.StaticCallee()
-	u.atCall(s, name, args, site, pos)
+	if ex, ok := u.expandVariadic(s, c, args); ok {
+		u.atCall(s, name, ex, site, pos)
+	} else {
+		u.atCall(s, name, args, site, pos)
+	}
 	if u.intrinsic(s, name, args, sig, instr) {
 		k(s)
 		return
@@ -493,6 +498,26 @@ func (u *Unit) applyContract(s *State, fc *FuncContract, callee *ssa.Function, n
 		}
 	}
 	for _, c := range fc.Clauses {
+		if c.Kind != "each" || len(res) == 0 || res[0].Sort != "Slice" {
+			continue
+		}
+		st, ok := res[0].T.Underlying().(*types.Slice)
+		if !ok {
+			continue
+		}
+		ex := map[string]Term{}
+		for k, v := range extra {
+			ex[k] = v
+		}
+		ex["_e"] = Term{S: "@@elem@@", Sort: u.ss.sortOf(st.Elem()), T: st.Elem()}
+		_, e2 := splitLabel(c.Expr)
+		g, err := mk(s, pre, ex).formula(e2)
+		if err != nil {
+			panic(abortUnit{fmt.Sprintf("%s:%d: %v", c.File, c.Line, err)})
+		}
+		s.elemFacts = append(s.elemFacts, elemFact{slice: res[0].S, tmpl: g})
+	}
+	for _, c := range fc.Clauses {
 		if c.Kind != "sets" {
 			continue
 		}
@@ -679,7 +704,20 @@ func (u *Unit) atCall(s *State, name string, args []Term, site ssa.Instruction, 
 		return
 	}
 	for _, c := range u.fc.Clauses {
-		if c.Kind != "at-call" || (c.Callee != name && c.Callee != shortCallee(name)) {
+		if c.Kind != "at-call" {
+			continue
+		}
+		want := c.Callee
+		wantOrd := 0
+		if i := strings.LastIndex(want, "#"); i > 0 {
+			if n, err := strconv.Atoi(want[i+1:]); err == nil {
+				want, wantOrd = want[:i], n
+			}
+		}
+		if want != name && want != shortCallee(name) {
+			continue
+		}
+		if wantOrd != 0 && wantOrd != u.ordinal(site) {
 			continue
 		}
 		env := u.bodyEnv(s, u.fn)
@@ -803,4 +841,34 @@ func (u *Unit) writeAllowed(p Term) bool {
 		}
 	}
 	return false
+}
+
+// expandVariadic returns the argument list with a constant-length varargs array spelled out.
+func (u *Unit) expandVariadic(s *State, c *ssa.CallCommon, args []Term) ([]Term, bool) {
+	if c == nil || !c.Signature().Variadic() || len(c.Args) == 0 {
+		return nil, false
+	}
+	last := c.Args[len(c.Args)-1]
+	m, ok := s.arrs[last]
+	if !ok || m == nil {
+		return nil, false
+	}
+	sl, ok := last.(*ssa.Slice)
+	if !ok {
+		return nil, false
+	}
+	al, ok := sl.X.(*ssa.Alloc)
+	if !ok {
+		return nil, false
+	}
+	n := al.Type().Underlying().(*types.Pointer).Elem().Underlying().(*types.Array).Len()
+	ex := append([]Term{}, args[:len(args)-1]...)
+	for i := int64(0); i < n; i++ {
+		t, ok := m[i]
+		if !ok {
+			return nil, false
+		}
+		ex = append(ex, t)
+	}
+	return ex, true
 }
